@@ -10,6 +10,7 @@ import (
 
 	_ "verif/checks"
 	"verif/mc"
+	"verif/proj"
 )
 
 func main() {
@@ -20,6 +21,10 @@ func main() {
 	id := os.Args[1]
 	if id == "list" {
 		fmt.Println(strings.Join(mc.IDs(), " "))
+		return
+	}
+	if id == "oneshot" { // vcheck oneshot <root> <batch-line arguments...>: one run in this fresh process, result as JSON
+		proj.OneShotMain(os.Args[2], os.Args[3:])
 		return
 	}
 	chk := mc.Get(id)
